@@ -1,0 +1,8 @@
+//! Verification hooks (compiled only with `--cfg maidsafe_safe_network_verif`).
+//! Pass-through access to crate-private items for the external correspondence harness in /verif.
+//! Nothing here changes behaviour; with the cfg off this module does not exist.
+
+pub use crate::cmd::{LocalSwarmCmd, NetworkSwarmCmd};
+pub use crate::event::verif as event;
+pub use crate::record_store::verif as record_store;
+pub use crate::replication_fetcher::verif as replication_fetcher;
